@@ -926,6 +926,15 @@ fn check_outputs(i: usize, o: &OpSt) -> Option<String> {
             if ends > 1 {
                 return Some(format!("multishot operation {i} ended {ends} times"));
             }
+            // C09: a stream whose request was interrupted is restarted, it does not end: the final
+            // completion (no F_MORE) behind an end of stream is never EINTR / ECANCELED.
+            if ends == 1 && !o.dropped {
+                if let Some(last) = o.posted_all.iter().rev().find(|c| !c.more) {
+                    if restart(last.res as i128) {
+                        return Some(format!("multishot operation {i}: the stream ended although its last final completion was the interruption {} (it has to be restarted transparently)", last.res));
+                    }
+                }
+            }
             if o.outputs.iter().any(|x| x.0 == 12 && restart(x.1)) && !o.dropped {
                 // A restart at the end of the stream must not surface either.
                 return Some(format!("multishot operation {i} surfaced an interruption to the caller"));
